@@ -1,7 +1,7 @@
 """C17 - a generated sample policy file overrides nothing and states every default.
 
 Monitor: the real sample generator (oslopolicy-sample-generator's
-_generate_sample, fed through a stevedore test manager) is run on generated
+console entry generate_sample, fed through a stevedore test manager) is run on generated
 lists of defaults; its output is re-read with independent parsers (PyYAML,
 json) and with the library's own Rules.load."""
 import json
@@ -36,8 +36,8 @@ PLAN = {'quick': dict(shards=4, wall=60), 'thorough': dict(shards=16, wall=400)}
 MIN = {'evaluations': 1000, 'yaml_samples': 500, 'json_samples': 300, 'hostile_descriptions': 500, 'deprecated_entries': 300, 'multi_namespace_samples': 100, 'regenerated_over_existing_file': 100}
 ANCHORS = ['oslo_policy.generator:_format_help_text', 'oslo_policy.generator:_format_rule_default_yaml',
            'oslo_policy.generator:_format_rule_default_json', 'oslo_policy.generator:_generate_sample',
-           'oslo_policy.generator:_sort_and_format_by_section']
-REQUIRED_ANCHORS = ['oslo_policy.generator:_generate_sample']
+           'oslo_policy.generator:_sort_and_format_by_section', 'oslo_policy.generator:generate_sample']
+REQUIRED_ANCHORS = ['oslo_policy.generator:generate_sample']
 N = {'quick': 4000, 'thorough': 400000}
 
 TEXT = ['a', 'b', 'Z', ' ', '  ', '\n', '\n\n', '\t', '#', ':', '"', "'", '-', '|', '>', '%', '{', '}', '[', ']', ',', '&',
@@ -122,8 +122,13 @@ def check_case(ctx, case):
     try:
         try:
             with mock.patch('stevedore.named.NamedExtensionManager', return_value=mgr):
-                generator._generate_sample([e.name for e in exts], output_file=out, output_format=case['fmt'], include_help=True,
-                                           exclude_deprecated=case['exclude'])
+                from oslo_config import cfg
+                args = ['--output-file', out, '--format', case['fmt']]
+                for e in exts:
+                    args += ['--namespace', e.name]
+                if case['exclude']:
+                    args.append('--exclude-deprecated')
+                generator.generate_sample(args, conf=cfg.ConfigOpts())        # oslopolicy-sample-generator
             with open(out, encoding='utf-8') as f:
                 text = f.read()
         except Exception as e:
